@@ -224,7 +224,7 @@ def gen_bands_slots(rng, lo, hi, nb, min_gap):
     for _ in range(50):
         pts = sorted(rng.randint(lo, hi) for _ in range(2 * nb))
         bands = [(pts[2 * i], pts[2 * i + 1]) for i in range(nb)]
-        if all(bands[i + 1][0] - bands[i][1] >= min_gap for i in range(nb - 1)):
+        if all(bands[i + 1][0] - bands[i][1] >= min_gap for i in range(nb - 1)) and all(a < b for a, b in bands):
             return bands
     return [(lo, hi)]
 
@@ -356,7 +356,12 @@ def oracle_cob(case, obs, ctx):
     if stream == 'malformed':
         return fails
     if 'cells' not in obs:
-        fails.append(('oms_bitmap_raises', obs.get('exc', '?')))
+        lists = case['amps'] if case['amps'] is not None else [case['bands']]
+        if obs.get('exc', '').startswith('IndexError') and lists and not interval_intersection(lists, case['si']):
+            fails.append(('oms-empty-common-range', 'create_oms_bitmap raises ' + obs['exc'] + ' for amplifiers without '
+                          'a common band'))
+        else:
+            fails.append(('oms_bitmap_raises', obs.get('exc', '?')))
         return fails
     n_min, n_max = f2n(case['f_min'], grid), f2n(case['f_max'], grid)
     cells = obs['cells']
@@ -414,7 +419,7 @@ def gen_unit(rng):
         for _ in range(12):
             grid = rng.choice([GRID, GRID, 2 * GRID, 50000000000, 3125000000])
             n = rng.randint(-1200, 600)
-            off = rng.choice([0, 0, 1, -1, 1000000000, -1000000000, rng.randint(-grid, grid)])
+            off = rng.choice([0, 0, 1000, -1000, 1000000000, -1000000000, 1000 * rng.randint(-grid // 1000, grid // 1000)])
             pts.append([REF + n * grid + off, grid])
         return {'kind': 'f2n', 'pts': pts}
     if k < 0.5:
@@ -493,7 +498,7 @@ L_AMPS = ['std_low_gain_L', 'std_medium_gain_L', 'std_low_gain_L_reduced_band', 
 MB_AMPS = ['std_low_gain_multiband', 'std_medium_gain_multiband', 'std_low_gain_multiband_bis',
            'std_low_gain_multiband_reduced_bis', 'std_low_gain_multiband_reduced', 'std_low_gain_multiband_ter']
 CB = {'f_min': 191.3e12, 'f_max': 195.1e12, 'spacing': 50e9}
-LB = {'f_min': 186.3e12, 'f_max': 190.1e12, 'spacing': 50e9}
+LB = {'f_min': 186.6e12, 'f_max': 190.0e12, 'spacing': 50e9}   # inside the L-band models of the library
 _EQ_CACHE = {}
 
 
@@ -550,11 +555,11 @@ def gen_net(rng, tricky=False):
     for x in names:
         k = rng.random()
         if multi_default:
-            bands = [CB, LB] if k < 0.8 else None          # None: both SI bands of the library
+            bands = [CB, LB]
         else:
             bands = [CB] if k < 0.75 else [LB]
         if tricky and rng.random() < 0.4:
-            bands = rng.choice([[CB], [LB], [CB, LB], None])
+            bands = rng.choice([[CB], [LB], [CB, LB], None])          # None: both SI bands of the library
         rb[x] = bands
         els.append({'uid': f'trx {x}', 'type': 'Transceiver'})
         r = {'uid': f'roadm {x}', 'type': 'Roadm', 'params': {}}
@@ -574,9 +579,14 @@ def gen_net(rng, tricky=False):
                     mode = 'L'
                 elif mode == 'L' and single and rb[s][0] is CB:
                     mode = 'C'
-            modes[f'{s}{t}'] = mode
+            preamp_only = False
+            if mode == 'auto' and not tricky and not single:
+                # a fully automatic line under a multi-band ROADM is only designable when something tells gnpy that the
+                # line is multi-band: give its pre-amplifier
+                mode, preamp_only = 'CL', True
+            modes[f'{s}{t}'] = mode + ('-preamp-only' if preamp_only else '')
             explicit = mode != 'auto'
-            full = rng.random() < (0.5 if tricky else 0.8)
+            full = rng.random() < (0.5 if tricky else 0.92 if mode == 'CL' else 0.8)
             nsp = rng.choice([1, 1, 2, 2, 3])
             prev = f'roadm {s}'
 
@@ -584,7 +594,7 @@ def gen_net(rng, tricky=False):
                 els.append(amp_el(rng, uid, mode))
                 cx.append((prev, uid))
                 return uid
-            if explicit and (full or rng.random() < 0.5):
+            if explicit and not preamp_only and (full or rng.random() < 0.5):
                 prev = put(f'booster {s}{t}', prev)
             for k in range(nsp):
                 fu = f'fiber {s}{t}_{k}'
@@ -599,9 +609,9 @@ def gen_net(rng, tricky=False):
                         els.append({'uid': u, 'type': 'Fused', 'params': {'loss': 1}})
                         cx.append((prev, u))
                         prev = u
-                    elif explicit and (full or rng.random() < 0.5):
+                    elif explicit and not preamp_only and (full or rng.random() < 0.5):
                         prev = put(f'ila {s}{t}_{k}', prev)
-            if explicit and (full or rng.random() < 0.5):
+            if explicit and (preamp_only or full or rng.random() < 0.5):
                 prev = put(f'preamp {s}{t}', prev)
             cx.append((prev, f'roadm {t}'))
     if rng.random() < 0.5:
@@ -641,7 +651,12 @@ def drive_net(case):
     eq = equipment_variant(case['eq'])
     obs = {}
     try:
-        net = network_from_json(copy.deepcopy(case['topo']), eq)
+        if 'topo_file' in case:
+            import gnpy
+            topo = json.load(open(os.path.join(os.path.dirname(gnpy.__file__), 'example-data', case['topo_file'])))
+        else:
+            topo = copy.deepcopy(case['topo'])
+        net = network_from_json(topo, eq)
         net, _, _ = designed_network(eq, net)
     except Exception as e:
         obs['design_exc'] = f'{type(e).__name__}: {str(e)[:200]}'
@@ -907,7 +922,7 @@ def run(ctx):
             layouts = {o['cells'] for o in obs.get('oms', [])}
             ctx.count('net_oms_total', len(obs.get('oms', [])))
             ctx.count('net_layouts_%s' % ('1' if len(layouts) <= 1 else '2' if len(layouts) == 2 else '3+'))
-            ctx.case({'kind': 'net', 'eq': c['eq'], 'modes': c.get('modes'), 'n_elements': len(c['topo']['elements'])},
+            ctx.case({'kind': 'net', 'eq': c['eq'], 'modes': c.get('modes'), 'n_nodes': len(obs['graph'])},
                      len(layouts) >= 2)
             for key, desc in oracle_net(c, obs, ctx):
                 ctx.violation(key, desc, pc)
